@@ -2,9 +2,9 @@
    different counter values are different; generated names are internal; and the
    "isolated relation" theorem: a relation defined by exactly one rule of a stratum whose
    body reads only completed relations holds exactly that rule's body solutions. *)
-From Coq Require Import List ZArith Bool Lia Decimal DecimalN.
+From Coq Require Import List ZArith Bool Lia Decimal DecimalN Permutation.
 From MV Require Import Datalog.Syntax Datalog.SyntaxProofs Datalog.Interp Datalog.Solve Datalog.SolveProofs
-     Datalog.SemiNaive Datalog.SemiNaiveProofs Datalog.Lfp Datalog.Rewrite.
+     Datalog.SemiNaive Datalog.SemiNaiveProofs Datalog.Lfp Datalog.Rewrite Datalog.Transform.
 Import ListNotations.
 Open Scope Z_scope.
 
@@ -190,4 +190,309 @@ Proof.
     + destruct (IH _ _ Hin) as [(r' & Hr' & H1 & H2) | (r' & m & d' & Hr' & H1 & H2 & H3 & H4)].
       * left. exists r'. simpl. auto.
       * right. exists r', m, d'. simpl. auto 10.
+Qed.
+
+(* ================= positions of the generated names: which clauses Rewrite produces =====
+   tmp_clause ord r k = the internal clause of rule r generated with counter value k;
+   tmp_clauses = the internal clauses of one call in order (the mirror of fresh_ids). *)
+Definition tmp_clause (ord : list Z -> list Z) (r : rule) (k : Z) : clause :=
+  mkClause (mkAtom (fresh_id (r_head r) k) (map TVar (ord (body_cols (r_wild r) (cbody (r_clause r))))))
+           (cbody (r_clause r)) [].
+
+Definition do_clause (ord : list Z -> list Z) (r : rule) (d : dotrans) (k : Z) : rule :=
+  mkRule (mkClause (chead (r_clause r)) [PAtom (chead (tmp_clause ord r k))] []) (Some d) [].
+
+Fixpoint tmp_clauses (strict : bool) (ord : list Z -> list Z) (n : Z) (rs : list rule) : list clause :=
+  match rs with
+  | [] => []
+  | r :: rest =>
+      match r_do r with
+      | None => tmp_clauses strict ord n rest
+      | Some _ =>
+          if single_atom_premise strict (r_wild r) (cbody (r_clause r))
+          then tmp_clauses strict ord n rest
+          else tmp_clause ord r (n + 1) :: tmp_clauses strict ord (n + 1) rest
+      end
+  end.
+
+Lemma plain_clauses_cons r rs :
+  plain_clauses (r :: rs) = if is_plain r then r_clause r :: plain_clauses rs else plain_clauses rs.
+Proof. unfold plain_clauses. simpl. destruct (is_plain r); reflexivity. Qed.
+
+Lemma tmp_clauses_heads strict ord : forall rs n,
+  heads (tmp_clauses strict ord n rs) = fresh_ids true strict n rs.
+Proof.
+  induction rs as [|r rs IH]; intros n; [reflexivity|].
+  cbn [tmp_clauses fresh_ids]. destruct (r_do r); [|apply IH].
+  destruct (single_atom_premise strict (r_wild r) (cbody (r_clause r))); [apply IH|].
+  unfold heads in *. cbn [map]. rewrite IH. reflexivity.
+Qed.
+
+(* the plain clauses of the rewritten list = the plain clauses of the input plus the
+   internal clauses, as multisets *)
+Lemma rewrite_go_plain_perm strict ord : forall rs n,
+  Permutation (plain_clauses (rewrite_go true strict ord n rs))
+              (plain_clauses rs ++ tmp_clauses strict ord n rs).
+Proof.
+  induction rs as [|r rs IH]; intros n; [apply Permutation_refl|].
+  cbn [rewrite_go tmp_clauses]. destruct (r_do r) as [d|] eqn:Ed.
+  - destruct (single_atom_premise strict (r_wild r) (cbody (r_clause r))) eqn:Es.
+    + rewrite !plain_clauses_cons. unfold is_plain. rewrite Ed. apply IH.
+    + rewrite !plain_clauses_cons. unfold is_plain. rewrite Ed. cbn [r_do r_clause].
+      apply Permutation_cons_app. apply IH.
+  - rewrite !plain_clauses_cons. unfold is_plain. rewrite Ed.
+    rewrite <- app_comm_cons. apply perm_skip. apply IH.
+Qed.
+
+Lemma rewrite_go_plain_in strict ord rs n c :
+  In c (plain_clauses (rewrite_go true strict ord n rs)) <->
+  In c (plain_clauses rs) \/ In c (tmp_clauses strict ord n rs).
+Proof.
+  rewrite <- in_app_iff. split; apply Permutation_in.
+  - apply rewrite_go_plain_perm.
+  - apply Permutation_sym, rewrite_go_plain_perm.
+Qed.
+
+(* the heads of the rewritten stratum's plain clauses are exactly the heads of the user's
+   plain clauses plus the generated names, each generated name once per generation *)
+Theorem rewrite_go_heads_perm strict ord rs n :
+  Permutation (heads (plain_clauses (rewrite_go true strict ord n rs)))
+              (heads (plain_clauses rs) ++ fresh_ids true strict n rs).
+Proof.
+  rewrite <- tmp_clauses_heads with (ord := ord). unfold heads. rewrite <- map_app.
+  apply Permutation_map. apply rewrite_go_plain_perm.
+Qed.
+
+Lemma is_plain_none c w : is_plain (mkRule c None w) = true.
+Proof. reflexivity. Qed.
+Lemma is_plain_some c d w : is_plain (mkRule c (Some d) w) = false.
+Proof. reflexivity. Qed.
+
+(* the rules that keep their do-transform keep their heads, in order *)
+Lemma rewrite_go_do_heads adv strict ord : forall rs n,
+  map r_head (filter (fun r => negb (is_plain r)) (rewrite_go adv strict ord n rs)) =
+  map r_head (filter (fun r => negb (is_plain r)) rs).
+Proof.
+  induction rs as [|r rs IH]; intros n; [reflexivity|].
+  cbn [rewrite_go]. destruct (r_do r) as [d|] eqn:Ed.
+  - assert (Hp : is_plain r = false) by (unfold is_plain; rewrite Ed; reflexivity).
+    destruct (single_atom_premise strict (r_wild r) (cbody (r_clause r))).
+    + cbn [filter]. rewrite Hp. cbn [negb map]. rewrite IH. reflexivity.
+    + cbn [filter]. rewrite Hp, is_plain_none, is_plain_some. cbn [negb map]. rewrite IH. reflexivity.
+  - assert (Hp : is_plain r = true) by (unfold is_plain; rewrite Ed; reflexivity).
+    cbn [filter]. rewrite Hp. cbn [negb]. apply IH.
+Qed.
+
+(* the internal clause and the transformed rule of the split rule at position |pre| *)
+Lemma tmp_clauses_at strict ord : forall pre n r post d,
+  r_do r = Some d -> single_atom_premise strict (r_wild r) (cbody (r_clause r)) = false ->
+  In (tmp_clause ord r (n + Z.of_nat (length (fresh_ids true strict n pre)) + 1))
+     (tmp_clauses strict ord n (pre ++ r :: post)).
+Proof.
+  induction pre as [|r0 pre IH]; intros n r post d Ed Es.
+  - cbn [app tmp_clauses fresh_ids length]. rewrite Ed, Es. left. f_equal. simpl. lia.
+  - cbn [app tmp_clauses fresh_ids]. destruct (r_do r0); [|eapply IH; eauto].
+    destruct (single_atom_premise strict (r_wild r0) (cbody (r_clause r0))); [eapply IH; eauto|].
+    right. cbn [length]. rewrite Nat2Z.inj_succ.
+    replace (n + Z.succ (Z.of_nat (length (fresh_ids true strict (n + 1) pre))) + 1)
+      with (n + 1 + Z.of_nat (length (fresh_ids true strict (n + 1) pre)) + 1) by lia.
+    eapply IH; eauto.
+Qed.
+
+Lemma rewrite_go_do_at strict ord : forall pre n r post d,
+  r_do r = Some d -> single_atom_premise strict (r_wild r) (cbody (r_clause r)) = false ->
+  In (do_clause ord r d (n + Z.of_nat (length (fresh_ids true strict n pre)) + 1))
+     (rewrite_go true strict ord n (pre ++ r :: post)).
+Proof.
+  induction pre as [|r0 pre IH]; intros n r post d Ed Es.
+  - cbn [app rewrite_go fresh_ids length]. rewrite Ed, Es. right. left.
+    unfold do_clause, tmp_clause. cbn [chead]. repeat f_equal; simpl; lia.
+  - cbn [app rewrite_go fresh_ids]. destruct (r_do r0); [|right; eapply IH; eauto].
+    destruct (single_atom_premise strict (r_wild r0) (cbody (r_clause r0))); [right; eapply IH; eauto|].
+    right. right. cbn [length]. rewrite Nat2Z.inj_succ.
+    replace (n + Z.succ (Z.of_nat (length (fresh_ids true strict (n + 1) pre))) + 1)
+      with (n + 1 + Z.of_nat (length (fresh_ids true strict (n + 1) pre)) + 1) by lia.
+    eapply IH; eauto.
+Qed.
+
+Lemma nodup_map_unique {A B} (f : A -> B) (l : list A) :
+  NoDup (map f l) -> forall a b, In a l -> In b l -> f a = f b -> a = b.
+Proof.
+  induction l as [|x l IH]; intros Hnd a b Ha Hb He; [destruct Ha|].
+  cbn [map] in Hnd. inversion Hnd as [|? ? Hnx Hnd']; subst.
+  destruct Ha as [<-|Ha]; destruct Hb as [<-|Hb]; auto.
+  - exfalso. apply Hnx. rewrite He. apply in_map. exact Hb.
+  - exfalso. apply Hnx. rewrite <- He. apply in_map. exact Ha.
+Qed.
+
+(* pairwise distinct generated names none of which a user clause defines: every generated
+   name heads exactly one plain clause of the rewritten stratum *)
+Theorem rewrite_go_internal_unique strict ord rs n c :
+  NoDup (fresh_ids true strict n rs) ->
+  (forall c0, In c0 (plain_clauses rs) -> ~ In (apred (chead c0)) (fresh_ids true strict n rs)) ->
+  In c (tmp_clauses strict ord n rs) ->
+  forall c', In c' (plain_clauses (rewrite_go true strict ord n rs)) ->
+             apred (chead c') = apred (chead c) -> c' = c.
+Proof.
+  intros Hnd Hu Hc c' Hc' He. apply rewrite_go_plain_in in Hc'. destruct Hc' as [Hc'|Hc'].
+  - exfalso. apply (Hu c' Hc'). rewrite He, <- tmp_clauses_heads with (ord := ord).
+    apply in_heads. exact Hc.
+  - rewrite <- tmp_clauses_heads with (ord := ord) in Hnd.
+    apply (nodup_map_unique (fun c => apred (chead c)) _ Hnd); auto.
+Qed.
+
+Lemma fresh_ids_elems adv strict : forall rs n x,
+  In x (fresh_ids adv strict n rs) -> exists r m, In r rs /\ n < m /\ x = fresh_id (r_head r) m.
+Proof.
+  induction rs as [|r rs IH]; intros n x Hx; [destruct Hx|]. cbn [fresh_ids] in Hx.
+  assert (Hrest : forall n', n <= n' -> In x (fresh_ids adv strict n' rs) ->
+                             exists r0 m, In r0 (r :: rs) /\ n < m /\ x = fresh_id (r_head r0) m).
+  { intros n' Hn' H. destruct (IH _ _ H) as (r0 & m & H1 & H2 & H3). exists r0, m. simpl. repeat split; auto. lia. }
+  destruct (r_do r); [|apply (Hrest n); [lia|exact Hx]].
+  destruct (single_atom_premise strict (r_wild r) (cbody (r_clause r))); [apply (Hrest n); [lia|exact Hx]|].
+  destruct Hx as [<-|Hx].
+  - exists r, (n + 1). simpl. repeat split; auto. lia.
+  - apply (Hrest (if adv then n + 1 else n)); [destruct adv; lia|exact Hx].
+Qed.
+
+Lemma fresh_ids_internal adv strict rs n :
+  (forall r, In r rs -> 1 <= r_head r) ->
+  forall x, In x (fresh_ids adv strict n rs) -> is_internal x = true.
+Proof.
+  intros Hh x Hx. destruct (fresh_ids_elems _ _ _ _ _ Hx) as (r & m & Hr & _ & ->).
+  apply fresh_id_internal. auto.
+Qed.
+
+(* ---- the internal relation of the split rule at position |pre| of a stratum, at full
+   strength: the uniqueness of its defining clause is derived from NoDup of the generated
+   names and "no user clause defines, no stored fact has, no body atom reads a generated
+   name of this stratum" *)
+Theorem rewrite_isolated_names strict ord pre r post d drules St0 fuel Res :
+  let rs := pre ++ r :: post in
+  let R := plain_clauses (rewrite_go true strict ord 0 rs) in
+  let k := Z.of_nat (length (fresh_ids true strict 0 pre)) + 1 in
+  let c := tmp_clause ord r k in
+  r_do r = Some d -> single_atom_premise strict (r_wild r) (cbody (r_clause r)) = false ->
+  NoDup (fresh_ids true strict 0 rs) ->
+  (forall r', In r' rs -> r_do r' = None -> ~ In (r_head r') (fresh_ids true strict 0 rs)) ->
+  (forall f, In f St0 -> fst f <> fresh_id (r_head r) k) ->
+  (forall q, In q (pos_preds (cbody (r_clause r))) ->
+             ~ In q (fresh_ids true strict 0 rs) /\
+             (forall r', In r' rs -> r_do r' = None -> r_head r' <> q)) ->
+  neg_ok R -> drules_ok R drules ->
+  eval_stratum fuel R drules St0 = Ok Res ->
+  In c R /\ In (do_clause ord r d k) (rewrite_go true strict ord 0 rs) /\
+  (forall c', In c' R -> apred (chead c') = fresh_id (r_head r) k -> c' = c) /\
+  (forall f, fst f = fresh_id (r_head r) k ->
+     (In f Res <-> exists t, sat (inset St0) (fun _ => St0) 0 (cbody (r_clause r)) [] t /\
+                             emit_head c t = Some f)).
+Proof.
+  intros rs R k c Ed Es Hnd Hu Hst Hq Hn Hdr He.
+  assert (Hplain : forall c0, In c0 (plain_clauses rs) ->
+                     exists r', In r' rs /\ r_do r' = None /\ c0 = r_clause r').
+  { intros c0 H0. unfold plain_clauses in H0. apply in_map_iff in H0 as (r' & <- & Hr').
+    apply filter_In in Hr' as [Hr' Hp]. exists r'. repeat split; auto.
+    unfold is_plain in Hp. destruct (r_do r'); [discriminate|reflexivity]. }
+  assert (Hct : In c (tmp_clauses strict ord 0 rs)).
+  { unfold c, k, rs. apply (tmp_clauses_at strict ord pre 0 r post d Ed Es). }
+  assert (HcR : In c R).
+  { unfold R. apply rewrite_go_plain_in. right. exact Hct. }
+  assert (Huniq : forall c', In c' R -> apred (chead c') = fresh_id (r_head r) k -> c' = c).
+  { intros c' Hc' Hp. apply (rewrite_go_internal_unique strict ord rs 0 c Hnd); auto.
+    intros c0 H0. destruct (Hplain c0 H0) as (r' & Hr' & Hd' & ->). apply (Hu r' Hr' Hd'). }
+  split; [exact HcR|]. split.
+  { unfold k, rs. apply (rewrite_go_do_at strict ord pre 0 r post d Ed Es). }
+  split; [exact Huniq|].
+  intros f Hf.
+  apply (isolated_relation_exact R drules St0 Hn Hdr c HcR Huniq Hst); auto.
+  intros q Hqin Hh. destruct (Hq q Hqin) as [Hq1 Hq2].
+  unfold R in Hh. apply (Permutation_in _ (rewrite_go_heads_perm strict ord rs 0)) in Hh.
+  apply in_app_iff in Hh as [Hh|Hh]; [|exact (Hq1 Hh)].
+  unfold heads in Hh. apply in_map_iff in Hh as (c0 & <- & H0).
+  destruct (Hplain c0 H0) as (r' & Hr' & Hd' & ->). exact (Hq2 r' Hr' Hd' eq_refl).
+Qed.
+
+(* ================= when are generated names distinct across head symbols ============== *)
+Definition is_digit (b : Z) : Prop := 48 <= b <= 57.
+Definition ends_in_digit (p : Z) : Prop := 48 <= p mod 256 <= 57.
+
+Lemma uint_bytes_digit d : Forall is_digit (uint_bytes d).
+Proof. induction d; simpl; constructor; auto; unfold is_digit; lia. Qed.
+
+Lemma uint_bytes_nonnil_nz n : dec_bytes n <> [].
+Proof.
+  unfold dec_bytes. destruct (N.to_uint (Z.to_N n)) eqn:E; simpl; try discriminate.
+  exfalso. unfold N.to_uint in E. destruct (Z.to_N n); [discriminate|].
+  apply (DecimalPos.Unsigned.to_uint_nonnil p). exact E.
+Qed.
+
+(* two symbols extended by digit strings give the same name exactly when one symbol is the
+   other followed by digits w and the digit strings differ by that prefix w *)
+Lemma push_digits_eq : forall l1 l2 h1 h2,
+  Forall is_digit l1 -> Forall is_digit l2 -> push_bytes h1 l1 = push_bytes h2 l2 ->
+  exists w, Forall is_digit w /\
+    ((h1 = push_bytes h2 w /\ l2 = w ++ l1) \/ (h2 = push_bytes h1 w /\ l1 = w ++ l2)).
+Proof.
+  induction l1 as [|b1 l1 IH] using rev_ind; intros l2 h1 h2 H1 H2 He.
+  - exists l2. split; [exact H2|]. left. split; [exact He|]. rewrite app_nil_r. reflexivity.
+  - destruct l2 as [|b2 l2 _] using rev_ind.
+    + exists (l1 ++ [b1]). split; [exact H1|]. right. split; [symmetry; exact He|]. rewrite app_nil_r. reflexivity.
+    + apply Forall_app in H1 as [H1 Hb1]. inversion Hb1 as [|? ? Hb1' _]; subst.
+      apply Forall_app in H2 as [H2 Hb2]. inversion Hb2 as [|? ? Hb2' _]; subst.
+      unfold is_digit in Hb1', Hb2'. rewrite !push_bytes_snoc in He.
+      assert (push_bytes h1 l1 = push_bytes h2 l2 /\ b1 = b2) as [Hp ->] by lia.
+      destruct (IH l2 h1 h2 H1 H2 Hp) as (w & Hw & [[Ha Hb]|[Ha Hb]]); exists w; (split; [exact Hw|]).
+      * left. split; [exact Ha|]. rewrite Hb, app_assoc. reflexivity.
+      * right. split; [exact Ha|]. rewrite Hb, app_assoc. reflexivity.
+Qed.
+
+Theorem fresh_id_eq_iff h1 h2 n1 n2 :
+  fresh_id h1 n1 = fresh_id h2 n2 <->
+  exists w, Forall is_digit w /\
+    ((h1 = push_bytes h2 w /\ dec_bytes n2 = w ++ dec_bytes n1) \/
+     (h2 = push_bytes h1 w /\ dec_bytes n1 = w ++ dec_bytes n2)).
+Proof.
+  unfold fresh_id. rewrite !push_bytes_app, !push_tmp. split.
+  - intros He. apply push_digits_eq; try apply uint_bytes_digit. lia.
+  - intros (w & _ & [[-> Hd]|[-> Hd]]); rewrite Hd, push_bytes_app; reflexivity.
+Qed.
+
+Lemma push_digits_ends h w : w <> [] -> Forall is_digit w -> ends_in_digit (push_bytes h w).
+Proof.
+  intros Hw Hd. destruct w as [|b w _] using rev_ind; [congruence|].
+  apply Forall_app in Hd as [_ Hb]. inversion Hb as [|? ? Hb' _]; subst. unfold is_digit in Hb'.
+  rewrite push_bytes_snoc. unfold ends_in_digit.
+  rewrite Z.add_comm, Z.mod_add by lia. rewrite Z.mod_small by lia. exact Hb'.
+Qed.
+
+(* neither symbol ends in a digit: the generated name determines symbol and counter *)
+Theorem fresh_id_inj_nodigit h1 h2 n1 n2 :
+  ~ ends_in_digit h1 -> ~ ends_in_digit h2 -> 0 <= n1 -> 0 <= n2 ->
+  fresh_id h1 n1 = fresh_id h2 n2 -> h1 = h2 /\ n1 = n2.
+Proof.
+  intros Hd1 Hd2 Hn1 Hn2 He. apply fresh_id_eq_iff in He as (w & Hw & Hc).
+  destruct w as [|b w].
+  - simpl in Hc. destruct Hc as [[-> Hd]|[-> Hd]]; split; auto; apply dec_bytes_inj; auto.
+  - exfalso. assert (Hne : b :: w <> []) by discriminate.
+    destruct Hc as [[-> _]|[-> _]]; [apply Hd1|apply Hd2]; apply push_digits_ends; auto.
+Qed.
+
+Lemma id_of_name_ends s b : is_byte b -> (ends_in_digit (id_of_name (s ++ [b])) <-> is_digit b).
+Proof.
+  intros Hb. unfold is_byte in Hb. unfold id_of_name, ends_in_digit, is_digit.
+  rewrite push_bytes_snoc, Z.add_comm, Z.mod_add by lia. rewrite Z.mod_small by lia. tauto.
+Qed.
+
+(* no head symbol of the stratum ends in a digit: the names of one call are pairwise distinct *)
+Theorem fresh_ids_nodup strict : forall rs n,
+  0 <= n -> (forall r, In r rs -> ~ ends_in_digit (r_head r)) ->
+  NoDup (fresh_ids true strict n rs).
+Proof.
+  induction rs as [|r rs IH]; intros n Hn Hd; [constructor|]. cbn [fresh_ids].
+  assert (Hd' : forall r0, In r0 rs -> ~ ends_in_digit (r_head r0)) by (intros; apply Hd; simpl; auto).
+  destruct (r_do r); [|apply IH; auto].
+  destruct (single_atom_premise strict (r_wild r) (cbody (r_clause r))); [apply IH; auto|].
+  constructor; [|apply IH; auto; lia].
+  intros Hin. destruct (fresh_ids_elems _ _ _ _ _ Hin) as (r0 & m & Hr0 & Hm & He).
+  apply fresh_id_inj_nodigit in He; [lia| | |lia|lia]; apply Hd; simpl; auto.
 Qed.
